@@ -34,7 +34,7 @@ def gen_plan(rng, tier, index):
     theta = [rng.pick([0.5, 1.0, 2.0, 3.0]), rng.pick([0.0, 0.5, 1.0])] if kind in ('weighted', 'interpolate') else \
         rng.pick([0, 1]) if kind == 'select' else None
     n_part = rng.randint(1, 4)
-    design = rng.pick(['make_design', 'shuffled', 'relabelled', 'matrix', 'shuffled_relabelled', 'matrix_mixed'])
+    design = rng.pick(['make_design', 'shuffled', 'relabelled', 'matrix', 'shuffled_relabelled', 'matrix_mixed', 'unbalanced'])
     n_ch = nc + rng.pick([0, 0, 1, 3, 10]) if rng.chance(0.92) else max(1, nc - rng.randint(1, 2))
     plan = {'n_cond': nc, 'points': pts, 'kind': kind, 'theta': theta, 'n_part': n_part, 'design': design,
             'perm_seed': rng.randrange(10 ** 6), 'labels': sorted(rng.sample(range(0, 40), nc)),
@@ -131,7 +131,14 @@ def _design(plan):
     cond_vec, part_vec = make_design(nc, n_part)
     r = random.Random(plan['perm_seed'])
     cv = np.array(cond_vec)
-    if plan['design'] in ('shuffled', 'shuffled_relabelled') or (plan['design'] in ('matrix', 'matrix_mixed') and plan['perm_seed'] % 2):
+    if plan['design'] in ('shuffled', 'shuffled_relabelled', 'unbalanced') or (plan['design'] in ('matrix', 'matrix_mixed') and plan['perm_seed'] % 2):
+        idx = list(range(len(cv)))
+        r.shuffle(idx)
+        cv = cv[idx]
+    if plan['design'] == 'unbalanced':
+        # the user's own condition vector: some conditions shown more often than others, in no particular order
+        extra = [r.randrange(nc) for _ in range(r.randint(1, nc + 1))]
+        cv = np.concatenate([cv, np.array(extra, dtype=cv.dtype)])
         idx = list(range(len(cv)))
         r.shuffle(idx)
         cv = cv[idx]
@@ -342,6 +349,17 @@ def execute(plan, ctx):
     cov = _spd(plan) if plan['noise_cov'] else None
     shared_model = _model(plan)[0]
     try:
+        if plan.get('warmup', True) and plan['n_cond'] % 3 == 0 and plan.get('mode') is None:
+            # an earlier simulation in the same session from a *different* model that happens to carry the same name, size and
+            # parameters (candidate models built in a loop): nothing of it may shape this one
+            try:
+                other = {**plan, 'points': [[[c_ * 1.5 + 0.25 * (i_ % 2) for c_ in row[::-1]] for i_, row in enumerate(pp[::-1])] for pp in plan['points']]}
+                _simulate(ctx, other, 0, None)
+                ctx.probe('namesake_model_simulated_before')
+            except HarnessError:
+                raise
+            except Exception:
+                pass
         if plan.get('warmup', True) and plan['n_cond'] % 2 == 0:
             # an earlier simulation from the same model object: later ones must still reproduce the model's RDM
             _simulate(ctx, plan, 0, None, model=shared_model)
